@@ -3,9 +3,10 @@ EXTENDS ImportCamt, Json
 CONSTANT MaxEntries
 VARIABLES opening, entries, order
 
-Det(a, c) == [amt |-> a, charge |-> c, rev |-> FALSE, figures |-> TRUE]
-DetBare(a, c) == [amt |-> a, charge |-> c, rev |-> FALSE, figures |-> FALSE]     \* no amount before charges shown
-Rev(a) == [amt |-> a, charge |-> DZero, rev |-> TRUE, figures |-> TRUE]
+Det(a, c) == [amt |-> a, charge |-> c, rev |-> FALSE, figures |-> TRUE, incl |-> TRUE]
+DetBare(a, c) == [amt |-> a, charge |-> c, rev |-> FALSE, figures |-> FALSE, incl |-> TRUE]     \* no amount before charges shown
+DetNI(a, c) == [amt |-> a, charge |-> c, rev |-> FALSE, figures |-> FALSE, incl |-> FALSE]      \* a charge that is not included
+Rev(a) == [amt |-> a, charge |-> DZero, rev |-> TRUE, figures |-> TRUE, incl |-> TRUE]
 \* an entry amount and the ways it is batched (details sum to the entry; a charge is included in its detail)
 Shapes0 == {
   [amt |-> D(100, 2), details |-> <<>>],
@@ -22,13 +23,20 @@ Shapes0 == {
   [amt |-> D(1050, 2), details |-> <<Det(D(1050, 2), D(-50, 2))>>]
 }
 \* entries without details that carry their own included charge: a payment with a fee, and a pure fee
-Shapes == {[amt |-> s.amt, details |-> s.details, charge |-> DZero] : s \in Shapes0}
-          \cup {[amt |-> D(1050, 2), details |-> <<>>, charge |-> D(50, 2)], [amt |-> D(500, 2), details |-> <<>>, charge |-> D(500, 2)]}
-Entries == {[cd |-> cd, amt |-> s.amt, vday |-> v, bday |-> b, details |-> s.details, charge |-> s.charge, sameref |-> sr] :
+Shapes == {[amt |-> s.amt, details |-> s.details, charge |-> DZero, chargeincl |-> TRUE] : s \in Shapes0}
+          \cup {[amt |-> D(1050, 2), details |-> <<>>, charge |-> D(50, 2), chargeincl |-> TRUE], [amt |-> D(500, 2), details |-> <<>>, charge |-> D(500, 2), chargeincl |-> TRUE]}
+          \* charges that are not included in the amount; an entry with details and a charge of its own
+          \cup {[amt |-> D(1050, 2), details |-> <<>>, charge |-> D(50, 2), chargeincl |-> FALSE],
+                [amt |-> D(1050, 2), details |-> <<DetNI(D(1050, 2), D(50, 2))>>, charge |-> DZero, chargeincl |-> TRUE],
+                [amt |-> D(2050, 2), details |-> <<DetNI(D(1050, 2), D(50, 2)), Det(D(1000, 2), DZero)>>, charge |-> DZero, chargeincl |-> TRUE],
+                [amt |-> D(2000, 2), details |-> <<Det(D(1000, 2), DZero), Det(D(1000, 2), DZero)>>, charge |-> D(50, 2), chargeincl |-> TRUE]}
+Entries == {[cd |-> cd, amt |-> s.amt, vday |-> v, bday |-> b, details |-> s.details, charge |-> s.charge, chargeincl |-> s.chargeincl, sameref |-> sr] :
               cd \in {"CRDT", "DBIT"}, s \in Shapes, v \in {2, 3}, b \in {3}, sr \in BOOLEAN}
+\* charges on debits and on credits (a credit is then net of the charge); a credited-back charge and charges that are
+\* not included stay on debits
 Usable(e) == /\ (e.sameref => Len(e.details) >= 2)
-             /\ \A j \in 1..Len(e.details) : (e.details[j].charge # DZero => e.cd = "DBIT")
-             /\ (e.charge # DZero => e.cd = "DBIT")
+             /\ \A j \in 1..Len(e.details) : ((DecSign(e.details[j].charge) < 0 \/ ~e.details[j].incl) => e.cd = "DBIT")
+             /\ ((e.charge # DZero /\ ~e.chargeincl) => e.cd = "DBIT")
 
 MCInit == /\ opening \in {DZero, D(100000, 2), D(-5000, 2)}
           /\ order \in {"old_to_new", "new_to_old"}
